@@ -760,5 +760,18 @@ C11(T) ==
                             \cup (IF ToSet(a.fs) # ToSet(b.fs) THEN {"fs"} ELSE {}) }
                : i \in 1..PMin(Len(T.ev), Len(T.ev2)) }
 
-Violations(T) == C01(T) \cup C02(T) \cup C03(T) \cup C10(T) \cup C07(T) \cup C08(T) \cup C19(T) \cup C05(T) \cup C06(T) \cup C15(T) \cup C12(T) \cup C13(T) \cup C14(T) \cup C14Table(T) \cup C04(T) \cup C16(T) \cup C11(T)
+\* ===== C09 (protocol side): the checksum the source places in its EOF PDU is that of the bytes it has sent =====
+\* (the filestore's calculation itself is judged by spec/ChecksumTrace.tla; here the file may grow while it is being sent)
+C09(T) ==
+  IF ~Has(T, "C09") THEN {} ELSE
+  UNION { LET st == StreamOf(T, qv) IN
+          { V("C09", "eof-checksum-is-not-that-of-the-bytes-sent", st[k].i, Kf(T), st[k].p.cond, "") :
+            k \in { k \in DOMAIN st : /\ st[k].p.t = "EOF" /\ st[1].p.t = "MD" /\ ~PutBefore(T, st[1].i).mdOnly
+                                      /\ LET f == CurFile(T, st[k].i)  size == st[k].p.size IN
+                                         /\ size <= Len(f)
+                                         /\ (st[1].p.chkType # "MODULAR" \/ size = Len(f))
+                                         /\ st[k].p.chk # FileChecksum(st[1].p.chkType, f, size) } }
+          : qv \in SeqNums(T) }
+
+Violations(T) == C01(T) \cup C02(T) \cup C03(T) \cup C10(T) \cup C07(T) \cup C08(T) \cup C19(T) \cup C05(T) \cup C06(T) \cup C15(T) \cup C12(T) \cup C13(T) \cup C14(T) \cup C14Table(T) \cup C04(T) \cup C16(T) \cup C11(T) \cup C09(T)
 ====
